@@ -37,6 +37,7 @@ def run(ck):
     ck.rule("C01.R6", "every new collector is registered (register_dispatch)", floor=6)
     ck.rule("C01.R7", "who may write MAX_LEVEL / callsite interest", floor=4)
     ck.rule("C01.R8", "STATIC_MAX_LEVEL table under each max_level feature", floor=18 if ck.tier == "thorough" else 0)
+    ck.rule("C01.R11", "collector wrappers forward the interest / enabled / hint questions to the wrapped collector (as C09.R1/R2)", floor=20)
     ck.rule("C01.R10", "interest rebuilds, collector registration and first-hit registration are serialised by the registry lock (as C04.R1)", floor=3)
     ck.rule("C01.R9", "the callsite registry never loses a registered callsite (lock-free push/walk, as C04.R3)", floor=5)
     F = Facts("default")
@@ -47,6 +48,11 @@ def run(ck):
     C04.r3(ck, F, rid="C01.R9")
     # ... and a rebuild must not run concurrently with a registration or another rebuild (C04.R1's critical sections)
     C04.r1(ck, F, rid="C01.R10")
+    # a collector behind Box/Arc/Layered/... must be asked itself: a wrapper that falls back to the trait default for
+    # register_callsite / enabled / max_level_hint caches an interest the collector never gave (C09.R1/R2, instantiated)
+    from rules import C09
+    C09.wrapper_rules(ck, F, rids={"R0": "C01.R11", "R1": "C01.R11", "R2": "C01.R11", "R3": "C01.R11"}, traits=["tracing_core::collect::Collect"],
+                      only={"register_callsite", "enabled", "event_enabled", "max_level_hint", "on_register_dispatch"})
     r2(ck, F)
     r3(ck, F)
     r4(ck, F)
